@@ -44,6 +44,9 @@ SOURCES = [
     Con("SNo"),
     Con("SMem", b"m1", Some(TEXT.encode())),
     Con("SMem", b"m2", None),
+    # equal to the m1 source above (source equality ignores the raw text) but holding another text:
+    # a slice must come from the operand's own source object, not from an "equal" one
+    Con("SMem", b"m1", Some(b"XY\nZW\nQRS")),
     Con("SText", b"uri::x", b"T"),
     Con("SFile", b"dir/f.txt"),
 ]
@@ -115,11 +118,13 @@ def gen_cases(rng, tier):
             a = gen_origin(rng)
             b = a if rng.random() < 0.3 else gen_origin(rng)
             add("Eq", Con("Eq", a, b))
-    # code origins of one source, every pair of grid ranges: the hull / slice clause
-    src = SOURCES[1]
+    # code origins of one source, every pair of grid ranges: the hull / slice clause; the two operands may hold
+    # equal sources with different texts (the slice is taken from the left operand's source)
     for x, y in itertools.product(rs, rs):
         if tier == "thorough" or rng.random() < 0.4:
-            add("Add-code", Con("Add", Con("OCode", src, x), Con("OCode", src, y)))
+            s1 = rng.choice([SOURCES[1], SOURCES[3]])
+            s2 = rng.choice([SOURCES[1], SOURCES[3]])
+            add("Add-code", Con("Add", Con("OCode", s1, x), Con("OCode", s2, y)))
     return cases
 
 
